@@ -1,5 +1,5 @@
 import NeverModel.Props.C09
-import NeverModel.Props.C10
+import NeverModel.Lemmas.NumCrash
 import NeverModel.Props.C12
 import NeverModel.Props.C14
 import NeverModel.Props.C03
@@ -39,15 +39,12 @@ theorem arith_never_tag (ty : NTy) (op : BinOp) (a b : NVal) (ha : a.ty = ty) (h
 remainder and at shift counts outside `[0, width)`; everywhere else — all 2^64 / 2^128 operand
 pairs — it yields a value or `division_by_zero` -/
 theorem arith_guards_complete_partial (ty : NTy) (op : BinOp) (a b : NVal) (w : String)
-    (h : bin ty op a b = .crash w) : C10.UBCase (.bin ty op) a b :=
-  C10.sem_crash_cases (.bin ty op) a b w h
+    (h : bin ty op a b = .crash w) : TrapCase ty op a b :=
+  bin_trap ty op a b w h
 
 /-- unary handlers and the twelve conversions never trap -/
 theorem unary_and_conversions_total (a : NVal) (w : String) :
-    (∀ ty op, un ty op a ≠ .crash w) ∧ (∀ s d, conv s d a ≠ .crash w) := by
-  constructor
-  · intro ty op h; exact (C10.sem_crash_cases (.un ty op) a a w h).elim
-  · intro s d h; exact (C10.sem_crash_cases (.conv s d) a a w h).elim
+    (∀ ty op, un ty op a ≠ .crash w) ∧ (∀ s d, conv s d a ≠ .crash w) := un_conv_never_trap a w
 
 /-- the excluded point is real: `INT_MIN / -1` traps (SIGFPE) instead of raising or wrapping -/
 theorem arith_guards_counterexample :
